@@ -9,6 +9,7 @@ import Driver.KnowDrv
 import Driver.AppMsgDrv
 import Driver.MediaDrv
 import Driver.CrashCoreDrv
+import Driver.FfiDrv
 
 def main (args : List String) : IO UInt32 := do
   match args with
@@ -23,4 +24,5 @@ def main (args : List String) : IO UInt32 := do
   | ["appmsg"] => Driver.AppMsgDrv.main; return 0
   | ["mediaw"] => Driver.MediaDrv.main; return 0
   | ["crashcore"] => Driver.CrashCoreDrv.main; return 0
+  | ["ffi"] => Driver.FfiDrv.main; return 0
   | _ => IO.eprintln "usage: mdkdrv store < ops"; return 2
